@@ -45,6 +45,7 @@ type Env struct {
 	OnCall   func(op string, failed bool)
 	Path     string // file of the file store, if any
 	Flaky    *FlakyStore // set when the engine runs on a store that can be told to reject the next write
+	Rets     []interface{} // raw values handed back by the last calls (for the alias histories)
 	// View, when set, returns the catalog that calls are observed against (the working
 	// catalog of an open session transaction); the committed catalog is then recorded as well
 	View  func() *lungo.Catalog
@@ -224,6 +225,9 @@ type Call struct {
 	NS  string // "db.coll" (or "db" for database-level calls)
 	A   V
 	Run func(e *Env) V // returns the result record
+	// Args are the Go values handed to the driver (shared with the caller, so that overwriting them afterwards shows
+	// whether the library kept a reference); the values handed back are collected in Env.Rets
+	Args []interface{}
 }
 
 // baseRes is the result record with every field present.
@@ -384,11 +388,12 @@ func counts(ins, mat, mod, del, ups int64) V {
 // InsertOne ...
 func (e *Env) InsertOne(ns string, doc bson.D) Call {
 	a := V{"doc": e.T.Val(doc), "gen": missing}
-	return Call{Op: "insertOne", NS: ns, A: a, Run: func(e *Env) V {
+	return Call{Op: "insertOne", NS: ns, A: a, Args: []interface{}{doc}, Run: func(e *Env) V {
 		res, err := e.coll(ns).InsertOne(e.Ctx, doc)
 		if err != nil {
 			return errRes(err)
 		}
+		e.Rets = append(e.Rets, res.InsertedID)
 		r := baseRes()
 		r["n"] = counts(1, 0, 0, 0, 0)
 		r["ids"] = []interface{}{e.T.Val(res.InsertedID)}
@@ -400,7 +405,7 @@ func (e *Env) InsertOne(ns string, doc bson.D) Call {
 // InsertMany ...
 func (e *Env) InsertMany(ns string, docs []bson.D, ordered bool) Call {
 	a := V{"docs": e.list(docs), "ordered": ordered, "gen": missing}
-	return Call{Op: "insertMany", NS: ns, A: a, Run: func(e *Env) V {
+	return Call{Op: "insertMany", NS: ns, A: a, Args: []interface{}{docs}, Run: func(e *Env) V {
 		l := make([]interface{}, 0, len(docs))
 		for _, d := range docs {
 			l = append(l, d)
@@ -411,6 +416,7 @@ func (e *Env) InsertMany(ns string, docs []bson.D, ordered bool) Call {
 			r = errRes(err)
 		}
 		if res != nil {
+			e.Rets = append(e.Rets, res.InsertedIDs)
 			ids := []interface{}{}
 			for _, id := range res.InsertedIDs {
 				ids = append(ids, e.T.Val(id))
@@ -428,7 +434,7 @@ func (e *Env) Update(ns string, many bool, q, upd bson.D, upsert bool, afs []bso
 		op = "updateMany"
 	}
 	a := V{"q": e.T.Val(q), "upd": e.T.Val(upd), "upsert": upsert, "afs": e.list(afs), "gen": missing}
-	return Call{Op: op, NS: ns, A: a, Run: func(e *Env) V {
+	return Call{Op: op, NS: ns, A: a, Args: []interface{}{q, upd, afs}, Run: func(e *Env) V {
 		o := options.Update().SetUpsert(upsert)
 		if len(afs) > 0 {
 			o.SetArrayFilters(afsOpt(afs))
@@ -446,6 +452,7 @@ func (e *Env) Update(ns string, many bool, q, upd bson.D, upsert bool, afs []bso
 		r := baseRes()
 		r["n"] = counts(0, res.MatchedCount, res.ModifiedCount, 0, res.UpsertedCount)
 		if res.UpsertedID != nil {
+			e.Rets = append(e.Rets, res.UpsertedID)
 			r["upid"] = e.T.Val(res.UpsertedID)
 			a["gen"] = e.genOf(res.UpsertedID)
 		}
@@ -456,7 +463,7 @@ func (e *Env) Update(ns string, many bool, q, upd bson.D, upsert bool, afs []bso
 // ReplaceOne ...
 func (e *Env) ReplaceOne(ns string, q, repl bson.D, upsert bool) Call {
 	a := V{"q": e.T.Val(q), "repl": e.T.Val(repl), "upsert": upsert, "gen": missing}
-	return Call{Op: "replaceOne", NS: ns, A: a, Run: func(e *Env) V {
+	return Call{Op: "replaceOne", NS: ns, A: a, Args: []interface{}{q, repl}, Run: func(e *Env) V {
 		res, err := e.coll(ns).ReplaceOne(e.Ctx, q, repl, options.Replace().SetUpsert(upsert))
 		if err != nil {
 			return errRes(err)
@@ -477,7 +484,7 @@ func (e *Env) Delete(ns string, many bool, q bson.D) Call {
 	if many {
 		op = "deleteMany"
 	}
-	return Call{Op: op, NS: ns, A: V{"q": e.T.Val(q)}, Run: func(e *Env) V {
+	return Call{Op: op, NS: ns, A: V{"q": e.T.Val(q)}, Args: []interface{}{q}, Run: func(e *Env) V {
 		var res *mongo.DeleteResult
 		var err error
 		if many {
@@ -503,6 +510,7 @@ func (e *Env) singleRes(sr lungo.ISingleResult) V {
 	if err != nil {
 		return errRes(err)
 	}
+	e.Rets = append(e.Rets, d)
 	r := baseRes()
 	r["docs"] = []interface{}{e.T.Val(d)}
 	return r
@@ -511,7 +519,7 @@ func (e *Env) singleRes(sr lungo.ISingleResult) V {
 // FindOneAndUpdate ...
 func (e *Env) FindOneAndUpdate(ns string, q, upd, srt, proj bson.D, upsert, after bool, afs []bson.D) Call {
 	a := V{"q": e.T.Val(q), "upd": e.T.Val(upd), "sort": e.docArg(srt), "proj": e.optDoc(proj), "upsert": upsert, "after": after, "afs": e.list(afs), "gen": missing}
-	return Call{Op: "findOneAndUpdate", NS: ns, A: a, Run: func(e *Env) V {
+	return Call{Op: "findOneAndUpdate", NS: ns, A: a, Args: []interface{}{q, upd, srt, proj, afs}, Run: func(e *Env) V {
 		o := options.FindOneAndUpdate().SetUpsert(upsert)
 		if after {
 			o.SetReturnDocument(options.After)
@@ -532,7 +540,7 @@ func (e *Env) FindOneAndUpdate(ns string, q, upd, srt, proj bson.D, upsert, afte
 // FindOneAndReplace ...
 func (e *Env) FindOneAndReplace(ns string, q, repl, srt, proj bson.D, upsert, after bool) Call {
 	a := V{"q": e.T.Val(q), "repl": e.T.Val(repl), "sort": e.docArg(srt), "proj": e.optDoc(proj), "upsert": upsert, "after": after, "gen": missing}
-	return Call{Op: "findOneAndReplace", NS: ns, A: a, Run: func(e *Env) V {
+	return Call{Op: "findOneAndReplace", NS: ns, A: a, Args: []interface{}{q, repl, srt, proj}, Run: func(e *Env) V {
 		o := options.FindOneAndReplace().SetUpsert(upsert)
 		if after {
 			o.SetReturnDocument(options.After)
@@ -550,7 +558,7 @@ func (e *Env) FindOneAndReplace(ns string, q, repl, srt, proj bson.D, upsert, af
 // FindOneAndDelete ...
 func (e *Env) FindOneAndDelete(ns string, q, srt, proj bson.D) Call {
 	a := V{"q": e.T.Val(q), "sort": e.docArg(srt), "proj": e.optDoc(proj), "after": false}
-	return Call{Op: "findOneAndDelete", NS: ns, A: a, Run: func(e *Env) V {
+	return Call{Op: "findOneAndDelete", NS: ns, A: a, Args: []interface{}{q, srt, proj}, Run: func(e *Env) V {
 		o := options.FindOneAndDelete()
 		if srt != nil {
 			o.SetSort(srt)
@@ -565,7 +573,7 @@ func (e *Env) FindOneAndDelete(ns string, q, srt, proj bson.D) Call {
 // Find ...
 func (e *Env) Find(ns string, q, srt, proj bson.D, skip, limit int) Call {
 	a := V{"q": e.T.Val(q), "sort": e.docArg(srt), "proj": e.optDoc(proj), "skip": skip, "limit": limit}
-	return Call{Op: "find", NS: ns, A: a, Run: func(e *Env) V {
+	return Call{Op: "find", NS: ns, A: a, Args: []interface{}{q, srt, proj}, Run: func(e *Env) V {
 		o := options.Find().SetSkip(int64(skip)).SetLimit(int64(limit))
 		if srt != nil {
 			o.SetSort(srt)
@@ -581,6 +589,7 @@ func (e *Env) Find(ns string, q, srt, proj bson.D, skip, limit int) Call {
 		if err := cur.All(e.Ctx, &ds); err != nil {
 			return errRes(err)
 		}
+		e.Rets = append(e.Rets, ds)
 		r := baseRes()
 		r["docs"] = e.list(ds)
 		return r
@@ -617,11 +626,12 @@ func (e *Env) EstimatedCount(ns string) Call {
 // Distinct ...
 func (e *Env) Distinct(ns, path string, q bson.D) Call {
 	e.T.Add(path)
-	return Call{Op: "distinct", NS: ns, A: V{"q": e.T.Val(q), "path": path}, Run: func(e *Env) V {
+	return Call{Op: "distinct", NS: ns, A: V{"q": e.T.Val(q), "path": path}, Args: []interface{}{q}, Run: func(e *Env) V {
 		vs, err := e.coll(ns).Distinct(e.Ctx, path, q)
 		if err != nil {
 			return errRes(err)
 		}
+		e.Rets = append(e.Rets, vs)
 		r := baseRes()
 		l := []interface{}{}
 		for _, v := range vs {
